@@ -21,7 +21,8 @@ import time
 import vlib
 import serverlib as sl
 
-THEOREMS = ["C11_versions_monotone", "C11_converges", "C11_stream_is_sequential", "C11_old_stale"]
+THEOREMS = ["C11_versions_monotone", "C11_converges", "C11_stream_is_sequential", "C11_published_files_sequential",
+            "C11_old_stale"]
 TRUSTED = [
     "Coq 8.16.1 kernel; no axioms (Print Assumptions: closed under the global context)",
     "model/ServerProto.v part 1 as a model of Server::{did_open, did_change, update_diagnostics, bump_diagnostic_version} (tied to the code by the correspondence run of this check) and model/Sched.v as a model of the lock protocol (tied by checks/C08.py); the ClientSocket channel and the output writer of async-lsp are FIFO",
@@ -73,7 +74,11 @@ def gen_text(rng, me, faulty=None):
     return nl.join(lines) + (nl if lines and rng.random() < 0.8 else "")
 
 
-def gen_history(rng, quick):
+def notifs(h):
+    return [st for st in h["steps"] if "open" in st or "change" in st]
+
+
+def gen_history(rng, quick, requests=False):
     disk = {}
     for f in FILES[1:]:
         if rng.random() < 0.85:
@@ -100,6 +105,11 @@ def gen_history(rng, quick):
             else:
                 text = gen_text(rng, f)
             steps.append({"change": f, "text": text})
+        if requests and rng.random() < 0.4:
+            # requests in flight while the next notification arrives (burst mode): they only read
+            for _ in range(rng.randrange(1, 3)):
+                k = rng.choice(["hover", "documentSymbol", "foldingRange", "documentLink", "definition", "references"])
+                steps.append({"request": k, "path": rng.choice(opened), "line": 0, "character": rng.randrange(0, 12)})
     return {"disk": disk, "steps": steps}
 
 
@@ -127,7 +137,7 @@ def overlays(h):
     """workspace state after each notification: (files dict, root)"""
     files = dict(h["disk"])
     out = []
-    for st in h["steps"]:
+    for st in notifs(h):
         p = st.get("open") or st.get("change")
         files[p] = st["text"]
         out.append((dict(files), p))
@@ -162,7 +172,8 @@ def expected_maps(bindir, histories):
 
 def session_script(h, mode, holds=None):
     return {"files_on_disk": [[p, t] for p, t in sorted(h["disk"].items())], "mode": mode, "watchdog_ms": 8000,
-            "quiet_ms": 300, "hard_ms": 60000, "steps": h["steps"] + ([{"wait_idle": True}] if mode == "burst" else []),
+            "quiet_ms": 300, "hard_ms": 60000,
+            "steps": sl.cap_in_flight(h["steps"] + ([{"wait_idle": True}] if mode == "burst" else [])),
             "holds": holds or []}
 
 
@@ -269,8 +280,8 @@ def run(ctx):
     n_hist = 160 if ctx.quick else 4000
     hists = [dict(h, mode="settled") for h in CORPUS] + [dict(h, mode="burst") for h in CORPUS]
     for i in range(n_hist):
-        h = gen_history(rng, ctx.quick)
         r = i % 4
+        h = gen_history(rng, ctx.quick, requests=(r >= 2))
         h["mode"] = "settled" if r < 2 else "burst"
         h["holds"] = reorder_holds(i // 4) if r == 3 else None
         hists.append(h)
@@ -278,13 +289,13 @@ def run(ctx):
     scripts = [session_script(h, h["mode"], h.get("holds")) for h in hists]
     outs = sl.run_sessions(bindir, scripts)
 
-    stats = {"histories": 0, "notifications": 0, "publications": 0, "settled": 0, "burst": 0, "burst_with_holds": 0,
+    stats = {"histories": 0, "notifications": 0, "publications": 0, "settled": 0, "burst": 0, "burst_with_holds": 0, "requests_interleaved": 0,
              "files_that_left_workspace": 0, "ide_panics_skipped": 0, "hangs": 0, "idle_points_checked": 0}
     usable, maps_list = [], []
     oracle_fail, corr_fail, samples = [], [], []
     nontrivial = set()
     for hi, (h, sc, out) in enumerate(zip(hists, scripts, outs)):
-        n = len(h["steps"])
+        n = len(notifs(h))
         ms = [maps[(hi, si)] for si in range(n)]
         if any("panic" in m for m in ms):
             stats["ide_panics_skipped"] += 1      # analysis panics are C03's subject
@@ -296,6 +307,7 @@ def run(ctx):
             continue
         stats["histories"] += 1
         stats["notifications"] += n
+        stats["requests_interleaved"] += sum(1 for st in h["steps"] if "request" in st)
         stats["settled" if h["mode"] == "settled" else ("burst_with_holds" if h.get("holds") else "burst")] += 1
         stream = observed_stream(out)
         stats["publications"] += len(stream)
@@ -334,7 +346,7 @@ def run(ctx):
     oracle_fail.sort(key=lambda f: (len(f["history"]["steps"]), len(json.dumps(f["history"]["steps"]))))
     for f in oracle_fail[:3]:
         h = f["history"]
-        ctx.violation("history of %d notification(s): %s" % (len(h["steps"]), f["failures"][0]["what"]),
+        ctx.violation("history of %d notification(s): %s" % (len(notifs(h)), f["failures"][0]["what"]),
                       {"property": "C11", "seed": ctx.seed, "disk": h["disk"], "steps": h["steps"], "mode": h.get("mode", "settled"),
                        "holds": h.get("holds"), "failures": f["failures"][:6],
                        "observed_stream": [[v, p, ds] for v, p, ds in f["observed"]][-12:],
@@ -378,7 +390,7 @@ def replay(ctx, path):
     maps = expected_maps(bindir, [h])
     sc = session_script(h, h["mode"], h.get("holds"))
     out = sl.run_session(bindir, sc)
-    n = len(h["steps"])
+    n = len(notifs(h))
     ms = [maps[(0, si)] for si in range(n)]
     print("disk      :", json.dumps(h["disk"]))
     for st in h["steps"]:
